@@ -13,10 +13,144 @@ pub proof fn lemma_p2_62() ensures p2(62) == 0x4000_0000_0000_0000, p2(40) == 0x
 { reveal_with_fuel(p2, 63); }
 
 /// flat index of node (d, o)
+pub proof fn lemma_p2_4x() ensures p2(41) == 0x200_0000_0000, p2(42) == 0x400_0000_0000, p2(43) == 0x800_0000_0000, p2(44) == 0x1000_0000_0000, p2(45) == 0x2000_0000_0000
+{ reveal_with_fuel(p2, 46); }
 pub open spec fn node_index(d: nat, o: int) -> int { o * p2(d + 1) + p2(d) - 1 }
 
 /// leaf L is the start of a block of 2^a leaves that reaches at least to `upto`
 pub open spec fn leaf_aligned(l: int, a: nat, upto: int) -> bool { a <= 61 && l % p2(a + 1) == 0 && upto <= l + p2(a + 1) }
+
+// ---- theory of the flat in-order numbering (all proved, no axioms) ----
+pub proof fn lemma_p2_add(a: nat, b: nat) ensures p2(a + b) == p2(a) * p2(b) decreases b
+{
+    if b == 0 { assert(p2(a) * 1 == p2(a)); } else {
+        lemma_p2_add(a, (b - 1) as nat);
+        assert(p2(a + b) == 2 * p2((a + b - 1) as nat));
+        assert(p2(b) == 2 * p2((b - 1) as nat));
+        assert(p2(a) * (2 * p2((b - 1) as nat)) == 2 * (p2(a) * p2((b - 1) as nat))) by (nonlinear_arith);
+    }
+}
+/// x + 1 == (2o + 1) * 2^d
+pub proof fn lemma_index_odd_part(d: nat, o: int) ensures node_index(d, o) + 1 == (2 * o + 1) * p2(d)
+{
+    assert(p2(d + 1) == 2 * p2(d));
+    assert(o * (2 * p2(d)) + p2(d) == (2 * o + 1) * p2(d)) by (nonlinear_arith);
+}
+/// a node is a leaf iff its index is even
+pub proof fn lemma_parity(d: nat, o: int) requires o >= 0 ensures (node_index(d, o) % 2 == 1) == (d > 0), node_index(d, o) >= 0
+{
+    lemma_p2_pos(d);
+    assert(p2(d + 1) == 2 * p2(d));
+    assert(o * (2 * p2(d)) == 2 * (o * p2(d))) by (nonlinear_arith);
+    assert(o * p2(d) >= 0) by (nonlinear_arith) requires o >= 0, p2(d) >= 1;
+    if d > 0 { assert(p2(d) == 2 * p2((d - 1) as nat)); lemma_p2_pos((d - 1) as nat); }
+}
+/// (d, o) lies in the subtree of (dd, oo)
+pub open spec fn anc(d: nat, o: int, dd: nat, oo: int) -> bool { d <= dd && oo * p2((dd - d) as nat) <= o < (oo + 1) * p2((dd - d) as nat) }
+pub open spec fn spans(d: nat, o: int, x: int) -> bool { node_index(d, o) - p2(d) < x < node_index(d, o) + p2(d) }
+
+pub proof fn lemma_anc_self(d: nat, o: int) ensures anc(d, o, d, o) { assert(p2(0) == 1); }
+pub proof fn lemma_anc_top(o: int, dd: nat, oo: int) requires anc(dd, o, dd, oo) ensures o == oo { assert(p2(0) == 1); }
+pub proof fn lemma_anc_step(d: nat, o: int, dd: nat, oo: int)
+    requires anc(d, o, dd, oo), d < dd, o >= 0
+    ensures anc(d + 1, o / 2, dd, oo)
+{
+    let p = p2((dd - d - 1) as nat);
+    assert(p2((dd - d) as nat) == 2 * p);
+    assert(oo * (2 * p) == 2 * (oo * p)) by (nonlinear_arith);
+    assert((oo + 1) * (2 * p) == 2 * ((oo + 1) * p)) by (nonlinear_arith);
+}
+/// the node whose index lies in the span of (dd, oo) is in its subtree
+pub proof fn lemma_span_anc(d: nat, o: int, dd: nat, oo: int)
+    requires o >= 0, oo >= 0, spans(dd, oo, node_index(d, o))
+    ensures anc(d, o, dd, oo)
+{
+    let x1 = node_index(d, o) + 1;
+    let a = p2(dd + 1);
+    lemma_index_odd_part(d, o);
+    lemma_index_odd_part(dd, oo);
+    lemma_p2_pos(d); lemma_p2_pos(dd);
+    assert(a == 2 * p2(dd));
+    // oo * a < x1 < (oo + 1) * a
+    assert(oo * a + p2(dd) == (2 * oo + 1) * p2(dd)) by (nonlinear_arith) requires a == 2 * p2(dd);
+    assert((oo + 1) * a == oo * a + a) by (nonlinear_arith);
+    assert(oo * a < x1 && x1 < (oo + 1) * a);
+    if d > dd {
+        let k = p2((d - dd - 1) as nat) * (2 * o + 1);
+        lemma_p2_add(dd + 1, (d - dd - 1) as nat);
+        assert(p2(d) == a * p2((d - dd - 1) as nat));
+        assert(x1 == k * a) by (nonlinear_arith) requires x1 == (2 * o + 1) * p2(d), p2(d) == a * p2((d - dd - 1) as nat), k == p2((d - dd - 1) as nat) * (2 * o + 1);
+        assert(oo < k) by (nonlinear_arith) requires oo * a < k * a, a > 0;
+        assert(k < oo + 1) by (nonlinear_arith) requires k * a < (oo + 1) * a, a > 0;
+        assert(false);
+    }
+    let p = p2((dd - d) as nat);
+    let q = p2(d);
+    lemma_p2_add(d + 1, (dd - d) as nat);
+    assert(p2(d + 1) == 2 * q);
+    assert(a == (2 * q) * p);
+    assert(oo * a == (2 * (oo * p)) * q) by (nonlinear_arith) requires a == (2 * q) * p;
+    assert((oo + 1) * a == (2 * ((oo + 1) * p)) * q) by (nonlinear_arith) requires a == (2 * q) * p;
+    assert(2 * (oo * p) < 2 * o + 1) by (nonlinear_arith) requires (2 * (oo * p)) * q < (2 * o + 1) * q, q > 0;
+    assert(2 * o + 1 < 2 * ((oo + 1) * p)) by (nonlinear_arith) requires (2 * o + 1) * q < (2 * ((oo + 1) * p)) * q, q > 0;
+}
+/// an index names one node
+pub proof fn lemma_node_unique(d1: nat, o1: int, d2: nat, o2: int)
+    requires o1 >= 0, o2 >= 0, node_index(d1, o1) == node_index(d2, o2)
+    ensures d1 == d2, o1 == o2
+{
+    lemma_p2_pos(d1); lemma_p2_pos(d2);
+    lemma_span_anc(d1, o1, d2, o2);
+    lemma_span_anc(d2, o2, d1, o1);
+    lemma_anc_top(o1, d2, o2);
+}
+/// a node in the subtree of (dd, oo) has its index inside that span
+pub proof fn lemma_anc_span(d: nat, o: int, dd: nat, oo: int)
+    requires anc(d, o, dd, oo), o >= 0, oo >= 0
+    ensures spans(dd, oo, node_index(d, o)), d < dd ==> node_index(d, o) - p2(d) >= node_index(dd, oo) - p2(dd) && node_index(d, o) + p2(d) <= node_index(dd, oo) + p2(dd)
+{
+    let p = p2((dd - d) as nat);
+    let q = p2(d);
+    lemma_p2_pos(d); lemma_p2_pos(dd); lemma_p2_pos((dd - d) as nat);
+    lemma_index_odd_part(d, o);
+    lemma_index_odd_part(dd, oo);
+    lemma_p2_add(d, (dd - d) as nat);
+    assert(p2(dd) == q * p);
+    // x+1 = (2o+1) q ; X+1 = (2oo+1) p q ; span: X+1 - pq < x+1 < X+1 + pq  i.e. 2 oo p q < (2o+1) q < (2oo+2) p q
+    assert((2 * oo + 1) * (q * p) - q * p == (2 * (oo * p)) * q) by (nonlinear_arith);
+    assert((2 * oo + 1) * (q * p) + q * p == (2 * ((oo + 1) * p)) * q) by (nonlinear_arith);
+    assert((2 * (oo * p)) * q < (2 * o + 1) * q) by (nonlinear_arith) requires oo * p <= o, q > 0;
+    assert((2 * o + 1) * q < (2 * ((oo + 1) * p)) * q) by (nonlinear_arith) requires o < (oo + 1) * p, q > 0;
+    if d < dd {
+        // tighter: whole span of the child inside: 2 oo p q <= 2 o q  and (2o+2) q <= (2oo+2) p q
+        assert((2 * (oo * p)) * q <= (2 * o + 1) * q - q) by (nonlinear_arith) requires oo * p <= o, q > 0;
+        assert((2 * o + 1) * q + q <= (2 * ((oo + 1) * p)) * q) by (nonlinear_arith) requires o + 1 <= (oo + 1) * p, q > 0;
+    }
+}
+/// x below 2^(d+1) and inside the span of (d, o): the node is the leftmost one of its level
+pub proof fn lemma_span_small(d: nat, o: int, x: int)
+    requires o >= 0, spans(d, o, x), x < p2(d + 1)
+    ensures o == 0
+{
+    lemma_p2_pos(d);
+    if o >= 1 { assert(o * p2(d + 1) >= p2(d + 1)) by (nonlinear_arith) requires o >= 1, p2(d + 1) >= 0; }
+}
+pub proof fn lemma_next_aligned(l: int, a: nat, d: nat, upto: int)
+    requires leaf_aligned(l, a, upto), l >= 0, d <= 61, l + p2(d + 1) <= upto < l + p2(d + 2)
+    ensures leaf_aligned(l + p2(d + 1), d, upto)
+{
+    lemma_p2_pos(d + 1);
+    if d > a { lemma_p2_strict(a + 1, d + 1); }
+    lemma_p2_add(d + 1, (a - d) as nat);
+    let aa = p2(d + 1); let bb = p2((a - d) as nat);
+    lemma_p2_pos((a - d) as nat);
+    assert(p2(a + 1) == aa * bb);
+    vstd::arithmetic::div_mod::lemma_mod_mod(l, aa, bb);
+    assert(l % aa == 0);
+    vstd::arithmetic::div_mod::lemma_mod_add_multiples_vanish(l, aa);
+    assert(p2(d + 2) == 2 * p2(d + 1));
+}
+
 
 pub uninterp spec fn spec_parent(i: u64) -> u64;
 /// depth of a node = number of trailing one bits of its index
@@ -32,7 +166,56 @@ pub fn parent(i: u64) -> (r: u64)
     ensures r == spec_parent(i)
 { unimplemented!() }
 
+/// every index names a node
+pub proof fn lemma_node_exists(x: int)
+    requires x >= 0
+    ensures exists|p: (nat, int)| p.1 >= 0 && node_index(p.0, p.1) == x
+    decreases x
+{
+    assert(p2(0) == 1); assert(p2(1) == 2);
+    if x % 2 == 0 {
+        let p = (0nat, x / 2);
+        assert((x / 2) * 2 == x);
+        assert(p.1 >= 0 && node_index(p.0, p.1) == x);
+    } else {
+        lemma_node_exists((x - 1) / 2);
+        let q = choose|q: (nat, int)| q.1 >= 0 && node_index(q.0, q.1) == (x - 1) / 2;
+        let p = ((q.0 + 1) as nat, q.1);
+        assert(p2(q.0 + 2) == 2 * p2(q.0 + 1));
+        assert(p2(q.0 + 1) == 2 * p2(q.0));
+        assert(q.1 * (2 * p2(q.0 + 1)) == 2 * (q.1 * p2(q.0 + 1))) by (nonlinear_arith);
+        assert(p.1 >= 0 && node_index(p.0, p.1) == x);
+    }
+}
+/// the (depth, offset) of the node with a given index (unique: lemma_node_unique)
+pub open spec fn node_of(index: u64) -> (nat, int) { choose|p: (nat, int)| p.1 >= 0 && node_index(p.0, p.1) == index }
+pub open spec fn depth_of(index: u64) -> nat { node_of(index).0 }
+pub open spec fn offset_of(index: u64) -> int { node_of(index).1 }
+/// node `a` lies in the subtree of node `b` (or is `b`)
+pub open spec fn anc_idx(a: u64, b: u64) -> bool { anc(depth_of(a), offset_of(a), depth_of(b), offset_of(b)) }
+
+pub proof fn lemma_node_of_index(index: u64)
+    ensures offset_of(index) >= 0, node_index(depth_of(index), offset_of(index)) == index
+{ lemma_node_exists(index as int); }
 pub struct Iterator { pub index: u64, pub offset: u64, pub factor: u64, pub d: Ghost<nat> }
+/// a node whose index is below 2^k is at most k levels up
+pub proof fn lemma_depth_bound(it: Iterator, k: nat)
+    requires it.wf(), it.index < p2(k)
+    ensures it.d@ <= k
+{
+    lemma_p2_pos(it.d@ + 1);
+    assert(it.offset * p2(it.d@ + 1) >= 0) by (nonlinear_arith) requires it.offset >= 0, p2(it.d@ + 1) >= 0;
+    if it.d@ > k { lemma_p2_strict(k, it.d@); lemma_p2_pos(k); }
+}
+pub proof fn lemma_node_of(it: Iterator)
+    requires it.wf()
+    ensures depth_of(it.index) == it.d@, offset_of(it.index) == it.offset
+{
+    let p = (it.d@, it.offset as int);
+    assert(p.1 >= 0 && node_index(p.0, p.1) == it.index);
+    let q = node_of(it.index);
+    lemma_node_unique(q.0, q.1, it.d@, it.offset as int);
+}
 
 impl Iterator {
     pub open spec fn wf(&self) -> bool {
@@ -88,6 +271,7 @@ impl Iterator {
         ensures final(self).wf(), r == final(self).index,
             old(self).d@ == 0 ==> *final(self) == *old(self),
             old(self).d@ > 0 ==> final(self).d@ == old(self).d@ - 1 && final(self).offset == 2 * old(self).offset
+                && final(self).index == old(self).index - old(self).factor / 4
     { unimplemented!() }
     #[verifier::external_body]
     pub fn right_child(&mut self) -> (r: u64)
@@ -95,6 +279,7 @@ impl Iterator {
         ensures final(self).wf(), r == final(self).index,
             old(self).d@ == 0 ==> *final(self) == *old(self),
             old(self).d@ > 0 ==> final(self).d@ == old(self).d@ - 1 && final(self).offset == 2 * old(self).offset + 1
+                && final(self).index == old(self).index + old(self).factor / 4
     { unimplemented!() }
     /// first leaf to the right of this node's span
     #[verifier::external_body]
@@ -112,7 +297,8 @@ impl Iterator {
             r == (index > old(self).index && old(self).index % 2 == 0),
             !r ==> *final(self) == *old(self),
             r ==> final(self).wf() && final(self).index == old(self).index + p2(final(self).d@) - 1
-                && old(self).index + p2(final(self).d@ + 1) <= index < old(self).index + p2(final(self).d@ + 2)
+                && (final(self).d@ > 0 || index % 2 == 0 ==> old(self).index + p2(final(self).d@ + 1) <= index)
+                && index < old(self).index + p2(final(self).d@ + 2)
     { unimplemented!() }
 }
 
